@@ -1,7 +1,8 @@
 #!/bin/bash
-# tools/mut.sh "<python-replace: file|||old|||new>" ID [ID...] — apply a textual mutation to /repo, run quick checks, restore.
+# tools/mut.sh "<file|||old|||new>" ID [ID...] — apply a textual mutation to /repo, run quick checks, restore.
 spec="$1"; shift
-python3 - "$spec" <<'PY' || exit 3
+before=$(mktemp); find /verif/replays -type f | sort > $before
+python3 - "$spec" <<'PY' || { rm -f $before; exit 3; }
 import sys
 f,old,new=sys.argv[1].split('|||')
 p='/repo/'+f
@@ -13,8 +14,9 @@ open(p,'w').write(s)
 PY
 for id in "$@"; do
   out=$(cd /verif && VERIF_SEED=${VERIF_SEED:-0} ./check $id 2>/dev/null | grep -v conda)
-  if echo "$out" | grep -q "^VIOLATION"; then echo "  CAUGHT by $id: $(echo "$out" | grep -A2 '^VIOLATION' | sed -n 3p | cut -c1-200)"; else echo "  MISSED by $id: $(echo "$out" | tail -1 | cut -c1-160)"; fi
+  if echo "$out" | grep -q "^VIOLATION"; then echo "  CAUGHT by $id: $(echo "$out" | grep -A2 '^VIOLATION' | grep -v '^VIOLATION' | grep -v 'sub-check' | head -1 | cut -c1-220)"; else echo "  MISSED by $id: $(echo "$out" | tail -1 | cut -c1-160)"; fi
 done
-git -C /repo checkout -- . 
-# remove replay files produced by the mutant
-cd /verif && git status --porcelain replays | grep '^??' | awk '{print $2}' | xargs -r rm -rf
+git -C /repo checkout -- .
+# remove only the replay files the mutant produced
+find /verif/replays -type f | sort | comm -13 $before - | xargs -r rm -f
+rm -f $before
